@@ -1,11 +1,11 @@
-//! Conformance harness binary `vh-core`: one module per TLA+ specification (see /verif/spec).
-mod statevector;
+//! Conformance harness binary `vh-logsync`: one module per TLA+ specification (see /verif/spec).
+mod logsync;
 
 fn main() {
     let args = vh_common::Args::parse();
     vh_common::quiet_panics();
     match args.module.as_str() {
-        "statevector" => statevector::run(&args),
+        "logsync" => logsync::run(&args),
         _ => vh_common::unknown(&args),
     }
 }
